@@ -2,16 +2,19 @@
 (* Bounded instances of DiskConc: schedules for structured program families (see MC_CacheConc). *)
 EXTENDS DiskConc, Json
 
-CONSTANTS OpsPerTask, InitKinds, OpNames
+CONSTANTS OpsPerTask, InitKinds, OpNames,
+          SweepTasks   \* the tasks that play the background cleanup task: they only sweep, nobody else does
 VARIABLE init
 
-Ops == {[op |-> o, k |-> k] : o \in OpNames \ {"clear"}, k \in Keys} \cup
-       (IF "clear" \in OpNames THEN {[op |-> "clear", k |-> 0]} ELSE {})
+Keyless == {"clear", "sweep", "size"}
+Ops == {[op |-> o, k |-> k] : o \in OpNames \ Keyless, k \in Keys} \cup
+       {[op |-> o, k |-> 0] : o \in OpNames \cap Keyless}
 InitEntry(k, kind) == IF kind = "none" THEN None ELSE [id |-> k, size |-> SizeOf(k), exp |-> kind = "exp"]
 
 MCInit ==
   /\ init \in [Keys -> InitKinds]
   /\ prog \in [Tasks -> [1..OpsPerTask -> Ops]]
+  /\ \A t \in Tasks, i \in 1..OpsPerTask : (prog[t][i].op = "sweep") <=> (t \in SweepTasks)
   /\ ip = [t \in Tasks |-> 1] /\ pc = [t \in Tasks |-> "start"] /\ loc = [t \in Tasks |-> None]
   /\ index = [k \in Keys |-> InitEntry(k, init[k])]
   /\ file = [k \in Keys |-> IF init[k] = "none" THEN 0 ELSE k]
